@@ -105,13 +105,14 @@ def run(ctx):
     ctx.build(["Model/Task.vo", "Spec/ClientParse.vo"])
     runner = ctx.runner("task", "ExtTask.v")
     if runner is None:
+        # the model cannot be built (translator refused the source, or a proof file broke):
+        # the model-free search below still runs on the real code to find a concrete failing input
         ctx.oblige("extracted task runner builds", False, "see notes")
-        return
     rng = ctx.rng
     table = T.decision_table()
     step = 5 if ctx.tier == "quick" else 1
     cases = T.fault_cases(rng, ctx.tier) + T.random_cases(rng, ctx.tier) + [table[i] for i in range(0, len(table), step)]
-    answers = runner.query([T.ser_case(c) for _, c in cases])
+    answers = runner.query([T.ser_case(c) for _, c in cases]) if runner is not None else [None] * len(cases)
     agree = True
     search_ok = True
     cache = {}
@@ -121,7 +122,7 @@ def run(ctx):
     samples = []
     for i, ((tag, case), ans) in enumerate(zip(cases, answers)):
         real, extra = T.run_real(case)
-        d = T.compare(case, ans, real)
+        d = T.compare(case, ans, real) if ans is not None else None
         if d is not None:
             agree = False
             ctx.report("k-task:" + json.dumps(tag)[:80], "model and implementation disagree (%s): %s" % (tag, d[:300]),
